@@ -9,7 +9,7 @@ import json, os, subprocess, sys, time
 sys.path.insert(0, os.path.dirname(os.path.abspath(__file__)))
 import mutants
 
-REPO = "/repo"
+REPO = os.environ.get("MUT_REPO", "/repo")
 VERIF = "/verif"
 
 
